@@ -453,6 +453,7 @@ pub fn accepts(prop: &str, v: &Viol, ops: &[OpRec]) -> bool {
             "quiescent_drain_mismatch",
         ]) || (p == "try_waited" && opk.map(|o| o.k == K::Drain).unwrap_or(false))
             || (p == "fifo" && opk.map(|o| o.k == K::Drain).unwrap_or(false)),
+        "C03" => in_list(&["not_explainable_by_atomic_channel"]),
         _ => {
             let _ = kind_filter;
             false
@@ -481,7 +482,7 @@ pub fn nontrivial(prop: &str, f: &Feat) -> bool {
         "C15" => g("future_drop_polled") >= 1,
         "C16" => g("spurious_polls") >= 1 || g("waker_changes") >= 1 || g("stream_second_wait") >= 1,
         "C19" => g("drain_took_blocked_sender") >= 1,
-        "C03" => g("preemptive") >= 1,
+        "C03" => g("explained") >= 1 && g("overlapping_ops") >= 1 && g("preemptive") >= 1,
         _ => true,
     }
 }
@@ -504,7 +505,7 @@ pub fn rule_text(prop: &str) -> &'static str {
         "C15" => "fault enumeration over cancellation points: generated async scripts drop futures/streams after k polls and n yield points; non-trivial = a future was dropped after it had been polled (pending or claimed); distinct = hash(program, thread sequence)",
         "C16" => "generated poll scripts (spurious polls, waker changes, poll after completion, repeated stream waits) with concurrent peers; non-trivial = a spurious poll, a waker change or a second wait on one stream happened; distinct = hash(program, thread sequence)",
         "C19" => "generated drain_into calls with sentinel-prefixed vectors racing blocked/pending senders; non-trivial = a drain took at least one value from a blocked or pending sender; distinct = hash(program, thread sequence)",
-        "C03" => "small generated programs over the whole API; non-trivial = preemptive schedule; outcome vectors checked against all atomic-channel interleavings",
+        "C03" => "small generated programs (2-3 threads x <= 4 ops + prober) over the whole API incl. observers, close and handle drops, run under fine-grained generated schedules; the complete vector of observed results (observer reads split into their separate lock acquisitions) is searched for an explaining interleaving of atomic reference-channel steps (register / complete / timeout / cancel steps for blocking operations), constrained only by per-thread program order; non-trivial = operations of different threads overlapped in a preemptive schedule and an explanation was found (so the search was exercised); distinct = hash(program, thread sequence); searches that exhaust their 300k-state budget are inconclusive",
         _ => "generated programs",
     }
 }
